@@ -3551,6 +3551,7 @@ static srtp_err_status_t stream_update(srtp_t session,
     srtp_xtd_seq_num_t old_index;
     srtp_rdb_t old_rtcp_rdb;
     srtp_stream_t stream;
+    srtp_stream_t new_stream;
 
     status = srtp_valid_policy(policy);
     if (status != srtp_err_status_ok) {
@@ -3571,24 +3572,36 @@ static srtp_err_status_t stream_update(srtp_t session,
     old_index = stream->rtp_rdbx.index;
     old_rtcp_rdb = stream->rtcp_rdb;
 
+    /*
+     * build the replacement stream first, so that the existing stream is
+     * left untouched if the new policy turns out not to be acceptable
+     */
+    status = srtp_stream_alloc(&new_stream, policy);
+    if (status) {
+        return status;
+    }
+
+    status = srtp_stream_init(new_stream, policy);
+    if (status) {
+        srtp_stream_dealloc(new_stream, NULL);
+        return status;
+    }
+
     status = srtp_stream_remove(session, policy->ssrc.value);
     if (status) {
+        srtp_stream_dealloc(new_stream, NULL);
         return status;
     }
 
-    status = srtp_stream_add(session, policy);
+    status = srtp_insert_or_dealloc_stream(session->stream_list, new_stream,
+                                           session->stream_template);
     if (status) {
         return status;
-    }
-
-    stream = srtp_get_stream(session, htonl(policy->ssrc.value));
-    if (stream == NULL) {
-        return srtp_err_status_fail;
     }
 
     /* restore old extended seq */
-    stream->rtp_rdbx.index = old_index;
-    stream->rtcp_rdb = old_rtcp_rdb;
+    new_stream->rtp_rdbx.index = old_index;
+    new_stream->rtcp_rdb = old_rtcp_rdb;
 
     return srtp_err_status_ok;
 }
